@@ -719,6 +719,7 @@ Error Message: {}
                 # If there is no valid context, we reject the authentication
                 result = AUTH_FAILED
                 self._send_auth_result(username, method, result)
+                return
             try:
                 sshgss.ssh_check_mic(
                     mic_token, self.transport.session_id, self.auth_username
@@ -727,9 +728,9 @@ Error Message: {}
                 result = AUTH_FAILED
                 self._send_auth_result(username, method, result)
                 raise
-            result = AUTH_SUCCESSFUL
-            self.transport.server_object.check_auth_gssapi_keyex(
-                username, result
+            # the GSS-API layer is satisfied; the server application decides
+            result = self.transport.server_object.check_auth_gssapi_keyex(
+                username, AUTH_SUCCESSFUL
             )
         else:
             result = self.transport.server_object.check_auth_none(username)
@@ -949,9 +950,9 @@ class GssapiWithMicAuthHandler:
         # TODO: Implement client credential saving.
         # The OpenSSH server is able to create a TGT with the delegated
         # client credentials, but this is not supported by GSS-API.
-        result = AUTH_SUCCESSFUL
-        self.transport.server_object.check_auth_gssapi_with_mic(
-            username, result
+        # the GSS-API layer is satisfied; the server application decides
+        result = self.transport.server_object.check_auth_gssapi_with_mic(
+            username, AUTH_SUCCESSFUL
         )
         # okay, send result
         self._send_auth_result(username, self.method, result)
